@@ -298,23 +298,29 @@ def evalScriptOf : List Bytes → Option Bytes
     | some a, some b => some (a ++ b)
     | _, _ => none
 
-/-- run the temporary script on the session's environment; stops at the first failure keeping the state reached -/
-def evalRun (cx : Ctx) : Nat → SEE → Bytes → SEE × Option StepErr
-  | 0, e, _ => (e, none)
-  | n + 1, e, it =>
-    if it.isEmpty then (e, none)
-    else match step cx e it with
-      | .ok (e', it') => evalRun cx n e' it'
-      | .error err => (e, some err)
+/-- run the temporary script on the session's environment; stops at the first failure.
+    The Boolean records whether an executed OP_CODESEPARATOR moved the script-code start into the temporary script. -/
+def evalRun (cx : Ctx) : Nat → SEE → Bytes → Bool → SEE × Bool × Option StepErr
+  | 0, e, _, cs => (e, cs, none)
+  | n + 1, e, it, cs =>
+    if it.isEmpty then (e, cs, none)
+    else
+      let isSep := e.cond.allTrue && (match getOp it with | some g => g.opcode == Op.OP_CODESEPARATOR | none => false)
+      match step cx e it with
+      | .ok (e', it') => evalRun cx n e' it' (cs || isSep)
+      | .error err => (e, cs, some err)
 
-/-- `Instance::eval(argc, argv)`: result = new environment (position untouched) and the error, if any.
+/-- `Instance::eval(argc, argv)`: result = new environment (position untouched) and the error, if any
+    (a C++ exception is caught and reported as a failed operation).
     `none` = refused before execution (no argument / invalid opcode). -/
 def instEval (cx : Ctx) (e : IEnv) (args : List Bytes) : Option (IEnv × Option StepErr) :=
   if args.isEmpty then none
   else match evalScriptOf args with
     | none => none
     | some s =>
-      let (see', err) := evalRun cx (s.length + 1) e.see s
-      some ({ e with see := see' }, err)
+      let (see', cs, err) := evalRun cx (s.length + 1) e.see s false
+      -- an executed OP_CODESEPARATOR: the script code that follows it is the rest of the debugged script
+      let see'' := if cs then { see' with pbegincodehash := e.pc } else see'
+      some ({ e with see := see'' }, err)
 
 end Btcdeb.Model
